@@ -225,7 +225,9 @@ class TableBasedBitCrcRegister(BitCrcRegister):
         See BitCrcRegisterBase._process_bits
         """
         if len(bits) == self._config.feed_width_bits:
-            table_index: int = ba2int(bits) ^ (
+            # value of the chunk with its first bit as most significant one, whatever the
+            # endianness flag of the bitarray (the bit-by-bit register also goes by sequence order)
+            table_index: int = int(bits.to01(), 2) ^ (
                 ba2int(self.register)
                 >> (self._config.width_bits - self._config.feed_width_bits)
             )
